@@ -281,69 +281,82 @@ func TestC12Lru(t *testing.T) {
 		if chunk < 16 && size > 1000 {
 			size = 1000
 		}
-		data := Bytes(rapid.Uint64().Draw(rt, "seed"), size)
 		lf, err := lrufile.New(chunk, entries)
 		if err != nil {
 			Violation(rt, "C12/lru-new", "lrufile.New(%d,%d): %v", chunk, entries, err)
 			return
 		}
-		if err := lf.Reset(bytes.NewReader(data)); err != nil {
-			Violation(rt, "C12/lru-reset", "Reset: %v", err)
-			return
-		}
-		model := bytes.NewReader(data)
-		nops := rapid.IntRange(1, 60).Draw(rt, "nops")
+		// the patcher keeps one cache for a whole patch and Resets it onto each old file in turn
+		nfiles := rapid.SampledFrom([]int{1, 1, 2, 3, 5}).Draw(rt, "nfiles")
 		var script []string
-		for i := 0; i < nops; i++ {
-			if rapid.IntRange(0, 2).Draw(rt, "op") == 0 {
-				whence := rapid.SampledFrom([]int{io.SeekStart, io.SeekCurrent, io.SeekEnd}).Draw(rt, "whence")
-				cur, _ := model.Seek(0, io.SeekCurrent)
-				var off int64
-				switch whence {
-				case io.SeekStart:
-					off = int64(rapid.IntRange(0, size).Draw(rt, "soff"))
-				case io.SeekCurrent:
-					off = int64(rapid.IntRange(0, size).Draw(rt, "soff")) - cur
-				default:
-					off = -int64(rapid.IntRange(0, size).Draw(rt, "soff"))
+		var data []byte
+		for fi := 0; fi < nfiles; fi++ {
+			if fi > 0 {
+				size = rapid.SampledFrom([]int{0, 1, 10, 100, 1000, 4097, 100 * KiB}).Draw(rt, "size2")
+				if chunk < 16 && size > 1000 {
+					size = 1000
 				}
-				script = append(script, fmt.Sprintf("seek(%d,%d)", off, whence))
-				a, aerr := lf.Seek(off, whence)
-				b, berr := model.Seek(off, whence)
-				if (aerr != nil) != (berr != nil) || (aerr == nil && a != b) {
-					Violation(rt, "C12/lru-seek", "chunk %d entries %d size %d: %v -> lrufile (%d,%v) vs plain reader (%d,%v)", chunk, entries, size, script, a, aerr, b, berr)
+				script = append(script, fmt.Sprintf("reset(file of %d bytes)", size))
+				Ev.Probe("cache_reset_onto_another_file")
+			}
+			data = Bytes(rapid.Uint64().Draw(rt, "seed"), size)
+			if err := lf.Reset(bytes.NewReader(data)); err != nil {
+				Violation(rt, "C12/lru-reset", "Reset: %v", err)
+				return
+			}
+			model := bytes.NewReader(data)
+			nops := rapid.IntRange(1, 60).Draw(rt, "nops")
+			for i := 0; i < nops; i++ {
+				if rapid.IntRange(0, 2).Draw(rt, "op") == 0 {
+					whence := rapid.SampledFrom([]int{io.SeekStart, io.SeekCurrent, io.SeekEnd}).Draw(rt, "whence")
+					cur, _ := model.Seek(0, io.SeekCurrent)
+					var off int64
+					switch whence {
+					case io.SeekStart:
+						off = int64(rapid.IntRange(0, size).Draw(rt, "soff"))
+					case io.SeekCurrent:
+						off = int64(rapid.IntRange(0, size).Draw(rt, "soff")) - cur
+					default:
+						off = -int64(rapid.IntRange(0, size).Draw(rt, "soff"))
+					}
+					script = append(script, fmt.Sprintf("seek(%d,%d)", off, whence))
+					a, aerr := lf.Seek(off, whence)
+					b, berr := model.Seek(off, whence)
+					if (aerr != nil) != (berr != nil) || (aerr == nil && a != b) {
+						Violation(rt, "C12/lru-seek", "chunk %d entries %d size %d: %v -> lrufile (%d,%v) vs plain reader (%d,%v)", chunk, entries, size, script, a, aerr, b, berr)
+						return
+					}
+					continue
+				}
+				n := rapid.SampledFrom([]int{1, 2, 3, 10, 100, int(chunk), int(chunk) + 1, 3*int(chunk) + 1, 40000}).Draw(rt, "rlen")
+				script = append(script, fmt.Sprintf("read(%d)", n))
+				pa, pb := make([]byte, n), make([]byte, n)
+				var na int
+				var ea error
+				if p := Recover(func() { na, ea = lf.Read(pa) }); p != "" {
+					Violation(rt, "C12/lru-panic", "chunk %d entries %d size %d: %v panicked: %s", chunk, entries, size, script, p)
 					return
 				}
-				continue
-			}
-			n := rapid.SampledFrom([]int{1, 2, 3, 10, 100, int(chunk), int(chunk) + 1, 3*int(chunk) + 1, 40000}).Draw(rt, "rlen")
-			script = append(script, fmt.Sprintf("read(%d)", n))
-			pa, pb := make([]byte, n), make([]byte, n)
-			var na int
-			var ea error
-			if p := Recover(func() { na, ea = lf.Read(pa) }); p != "" {
-				Violation(rt, "C12/lru-panic", "chunk %d entries %d size %d: %v panicked: %s", chunk, entries, size, script, p)
-				return
-			}
-			nb, eb := io.ReadFull(model, pb) // the cache fills the buffer unless the file ends
-			if eb == io.ErrUnexpectedEOF {
-				eb = io.EOF
-			}
-			if na != nb || !bytes.Equal(pa[:na], pb[:nb]) {
-				Violation(rt, "C12/lru-read", "chunk %d entries %d size %d: %v returned %d bytes, plain reader %d (equal prefix %d)", chunk, entries, size, script, na, nb, firstDiff(pa[:na], pb[:nb]))
-				return
-			}
-			// EOF may be reported by this call or by the next one, never an error other than EOF
-			if ea != nil && ea != io.EOF {
-				Violation(rt, "C12/lru-read-error", "chunk %d entries %d size %d: %v returned error %v", chunk, entries, size, script, ea)
-				return
-			}
-			if ea == io.EOF && eb == nil {
-				// lrufile says EOF although the model still had all requested bytes and more may follow:
-				// allowed only if the position is exactly at the end
-				if pos, _ := model.Seek(0, io.SeekCurrent); pos != int64(size) {
-					Violation(rt, "C12/lru-early-eof", "chunk %d entries %d size %d: %v reported EOF at position %d", chunk, entries, size, script, pos)
+				nb, eb := io.ReadFull(model, pb) // the cache fills the buffer unless the file ends
+				if eb == io.ErrUnexpectedEOF {
+					eb = io.EOF
+				}
+				if na != nb || !bytes.Equal(pa[:na], pb[:nb]) {
+					Violation(rt, "C12/lru-read", "chunk %d entries %d size %d: %v returned %d bytes, plain reader %d (equal prefix %d)", chunk, entries, size, script, na, nb, firstDiff(pa[:na], pb[:nb]))
 					return
+				}
+				// EOF may be reported by this call or by the next one, never an error other than EOF
+				if ea != nil && ea != io.EOF {
+					Violation(rt, "C12/lru-read-error", "chunk %d entries %d size %d: %v returned error %v", chunk, entries, size, script, ea)
+					return
+				}
+				if ea == io.EOF && eb == nil {
+					// lrufile says EOF although the model still had all requested bytes and more may follow:
+					// allowed only if the position is exactly at the end
+					if pos, _ := model.Seek(0, io.SeekCurrent); pos != int64(size) {
+						Violation(rt, "C12/lru-early-eof", "chunk %d entries %d size %d: %v reported EOF at position %d", chunk, entries, size, script, pos)
+						return
+					}
 				}
 			}
 		}
